@@ -23,7 +23,7 @@ def setup():
     vflib.build_harness("release")
     # parse every specification module once
     bad = 0
-    for d in ("", "trace", "mc"):
+    for d in ("", "trace", "mc", "apalache"):
         for p in sorted(glob.glob(os.path.join(vflib.SPEC, d, "*.tla"))):
             r = vflib.sh(["java", "-DTLA-Library=" + vflib.SPEC + ":" + os.path.join(vflib.SPEC, "trace") + ":" +
                           os.path.join(vflib.SPEC, "mc"), "-cp", vflib.JARS, "tla2sany.SANY", p],
@@ -483,6 +483,10 @@ def c05(run):
     run.assumptions += ROS_ASSUME
     world_stage(run, "executor", "ros2sys", "MCRos2Exec.tla", "MCRos2Exec.cfg", slim=("id", "supply", "cbs"),
                 extra=["--family", "rtss21", "--nsys", _nsys(run, 900, 9000)])
+    # growth beyond the property's wording: two-callback chains inside rr workloads, end-to-end bound of
+    # rr::rta_subchain([s, k]) with the conservative propagation of the source's arrival curve
+    world_stage(run, "rr-chains", "ros2sys", "MCRos2Exec.tla", "MCRos2Exec.cfg", slim=("id", "supply", "cbs"),
+                extra=["--family", "rrchain", "--nsys", _nsys(run, 1500, 25000)])
     _ros_equational(run, "4,5")
 
 
